@@ -88,14 +88,28 @@ class SeqList:
         if isinstance(i, slice):
             if i.step is not None:
                 raise EngineError("stepped slice of SeqList")
-            n = z3.Length(self.seq)
-            lo = _z(i.start) if i.start is not None else z3.IntVal(0)
-            hi = _z(i.stop) if i.stop is not None else n
-            # python clamps; we require 0 <= lo (clamped to n) and hi <= n or clamp
-            lo_c = z3.If(lo < 0, z3.If(lo + n < 0, 0, lo + n), z3.If(lo > n, n, lo))
-            hi_c = z3.If(hi < 0, z3.If(hi + n < 0, 0, hi + n), z3.If(hi > n, n, hi))
-            ln = z3.If(hi_c > lo_c, hi_c - lo_c, 0)
-            return SeqList(z3.simplify(z3.SubSeq(self.seq, lo_c, ln)))
+            n = self.length()
+            lo = i.start if i.start is not None else 0
+            hi = i.stop if i.stop is not None else n
+            # clamp like python, deciding each case through the path condition (keeps the term a plain SubSeq)
+            if branch(lo < 0):
+                lo = lo + n
+                if branch(lo < 0):
+                    lo = 0
+            elif branch(lo > n):
+                lo = n
+            if i.stop is not None:
+                if branch(hi < 0):
+                    hi = hi + n
+                    if branch(hi < 0):
+                        hi = 0
+                elif branch(hi > n):
+                    hi = n
+            if not branch(hi > lo):
+                return SeqList(z3.Empty(IntSeq))
+            if isinstance(lo, int) and lo == 0 and i.stop is None:
+                return SeqList(self.seq)
+            return SeqList(z3.simplify(z3.SubSeq(self.seq, _z(lo), _z(hi - lo))))
         n = self.length()
         if not branch(And(i >= 0, i < n)):
             if branch(And(i < 0, i >= -n)):
